@@ -96,7 +96,7 @@ pub fn build(s: &C05Scn) -> WorldSys {
 	sys.max_disconnects = s.max_disconnects;
 	sys.settle_on_chain = s.force || s.tamper;
 	if !s.tamper {
-		sys.oracles.push(Box::new(NoErrorOracle { allow_coop: false, allow_force_by_user: s.force }));
+		sys.oracles.push(Box::new(NoErrorOracle { allow_coop: false, allow_force_by_user: s.force, ..Default::default() }));
 	} else {
 		sys.oracles.push(Box::new(TamperOracle { armed: false, error_seen: false }));
 	}
